@@ -5,6 +5,7 @@ import (
 	"fmt"
 	"sort"
 	"strings"
+	"time"
 
 	"github.com/btcsuite/btcd/btcec/v2"
 	"github.com/elnosh/gonuts/cashu"
@@ -468,6 +469,13 @@ func (ww *WW) StepMelt() {
 	}
 	ww.rc.S.Probe("w_melt_" + state)
 	_ = err
+}
+
+// StepClock: time passes (quotes expire; payments in flight are not affected by that).
+func (ww *WW) StepClock() {
+	d := []time.Duration{30 * time.Second, 11 * time.Minute, 2 * time.Hour}[ww.T.Choose("wclock.d", 3)]
+	ww.op("clock+" + d.String())
+	ww.rc.S.Sleep(d)
 }
 
 // StepRemelt: the wallet calls Melt again on a quote it already used (still pending, failed, or
